@@ -41,3 +41,8 @@ Definition verdict_C20 (steps : list step20) : list (N * N) := run_case20 empty_
 Definition class_C20 (steps : list step20) : list (N * N) :=
   let s := fold_left (fun s st => match st with Op20 o => apply_wop s o | _ => s end) steps empty_index in
   [(0, bit (K_order s) 16)].
+(** the same for a tree that exists on disk (directories exist there, so dotted imports
+    through packages resolve, which they cannot in a virtual workspace) *)
+Definition class_C20_on_disk (c : disk * list step20) : list (N * N) :=
+  let s := fold_left (fun s st => match st with Op20 o => apply_wop s o | _ => s end) (snd c) empty_index in
+  [(0, bit (K_order_sensitive_import (fst c) [] s || K_multi_provider s) 16)].
